@@ -323,6 +323,8 @@ class C03(RunSpec):
         p["leaf"] = _cycle(ALL_LEAVES, idx, 1)
         p["gscs"] = ["fevals", "evals", "melimit", "fevals"]
         p["levels"] = [2, 2, 3, 1]
+        if idx % 10 == 5:
+            p["log_level"] = _cycle(["info", "debug"], idx // 10)  # nothing computed for a log message may call the objective
         if idx % 10 == 8:
             # an objective with a hard +-inf penalty zone behind a cutoff wrapper that never runs out: genuine infinite values are
             # evaluations like any other
@@ -343,7 +345,7 @@ class C03(RunSpec):
         return d
 
     def floors(self, tier):
-        fl = [("objective.penalty", 3, "objective with a hard infinite penalty zone")]
+        fl = [("objective.penalty", 3, "objective with a hard infinite penalty zone"), ("log_level.verbose", 5, "runs at log level info / debug")]
         fl += [(f"C03.inside_metaepoch.{c}", 1, "consultation inside a metaepoch") for c in ("EADeme", "DEDeme", "SHADEDeme", "CMADeme", "LHSDeme", "SobolDeme")]
         fl += [
             ("engine.local", 1, "local deme"),
@@ -384,7 +386,10 @@ class C04(RunSpec):
             p["boxes"] = ["sym", "asym", "decimal"]
             p["stacks"] = False
         if idx % 10 == 8:
-            p["log_level"] = _cycle(["info", "debug"], idx // 10)  # verbose levels: whatever is computed for log messages must stay a pure read
+            # verbose levels: whatever is computed for log messages must stay a pure read (CMA-ES leaves on a bowl: any "free" look at the
+            # centre of a population would beat every sample)
+            p.update({"log_level": _cycle(["info", "debug"], idx // 10), "leaf": _cycle(["cma", "cma_warm"], idx // 10), "fams": ["sphere", "absv"], "levels": [2],
+                      "gscs": ["melimit"], "lscs": ["dontstop"], "stacks": False, "root": _cycle(["sea", "de", "lhs"], idx // 10)})
         if idx % 20 == 11:
             # an objective that is infinite in the good direction somewhere: the best must still be reported as such
             p = {"dim": (2, 2), "n_levels": 1, "root": _cycle(["sea", "de", "lhs", "sobol", "ga", "de_dither"], idx // 20), "fam": "pit",
@@ -606,6 +611,10 @@ class C06(RunSpec):
             d["levels"][0]["lsc"] = {"k": "dontstop"}
             d["levels"][1]["lsc"] = {"k": "melimit", "n": rng.randint(1, 3)}
             d["gsc"] = {"k": "melimit", "n": 9}
+        if idx % 10 == 6 and d.get("kind") == "tree" and not d.get("reuse") and not d.get("soak"):
+            d["entry"] = "hand"
+            d["hand_steps"] = 4 + (idx // 10) % 5
+            d["gsc"] = {"k": "evals", "n": 10**9}
         if d.get("reuse") and d["gsc"]["k"] == "melimit":
             d["gsc"]["n"] = max(d["gsc"]["n"], 7)
             for lv in d["levels"]:
@@ -624,6 +633,7 @@ class C06(RunSpec):
             ("C06.cause.engine", 1, "engine self-termination"),
             ("C06.deactivation.CMADeme.engine", 1, "CMA-ES internal stop"),
             ("C06.stopped_deme_observed_3_later_metaepochs", 1, "stopped deme observed over >=3 later metaepochs"),
+            ("hand_driven_metaepochs", 10, "metaepochs driven by hand through run_metaepoch() / run_sprout()"),
             ("C06.hibernating_deme_ahead_of_an_awake_one_in_run_order", 3, "a sleeping deme ahead of an awake one in the run order"),
             ("C06.local_deme_sprouted_from_a_stopped_parent", 2, "local deme sprouted from a stopped mid-level deme"),
             ("C06.lsc_verdicts_compared_with_documented_rule", 50, "LSC verdicts compared with the documented rule"),
